@@ -99,7 +99,7 @@ CHECKS.update({
     "C11": dict(
         engine="tgv-lsp",
         technique=FORM_H + " of the real server: every session up to the depth bound, driven to quiescence, compared with a reference session model; plus stateless schedule exploration (C08's controlled scheduler and lock model, hooks H3/H4) of every short notification scenario with the publication-order oracle",
-        text="Every session of didOpen/didChange messages up to the bound over two documents x six texts (clean; the same fault at one byte offset on two different lines; including the other document with the statement at two places; including a faulty on-disk file) is played against the real server; after the last message the latest publication per URI must equal the diagnostics of the final state (empty for files outside it) and versions per URI must not decrease. In addition every schedule of every scenario of up to 2 (thorough: 3) open/change notifications after the first open is executed: per file the versions of the publications, in the order they are sent, never decrease.",
+        text="Every session of didOpen/didChange messages up to the bound over two documents x seven texts (clean; a syntax error; the same fault at one byte offset on two different lines; including the other document with the statement at two places; including a faulty on-disk file) and a third document (that faulty file with an empty buffer) is played against the real server; after the last message the latest publication per URI must equal the diagnostics of the final state (empty for files outside it) and versions per URI must not decrease. In addition every schedule of every scenario of up to 2 (thorough: 3) open/change notifications after the first open is executed: per file the versions of the publications, in the order they are sent, never decrease.",
         note="sessions are sequential; the schedule stratum covers publication order only (liveness under schedules is C08's verdict)",
         design="5/C11"),
     "C12": dict(
